@@ -336,6 +336,26 @@ fn mi_bin_from_size(size: usize) -> usize {
     bin as usize
 }
 
+/// Verification hooks: the size-class table and the private bin function.
+#[cfg(mmtk_verif)]
+pub mod verif {
+    /// Cell size of every bin of the real table built by `new_empty_block_lists`.
+    pub fn bin_sizes() -> [usize; super::MAX_BIN + 1] {
+        let lists = super::new_empty_block_lists();
+        let mut out = [0usize; super::MAX_BIN + 1];
+        for (i, l) in lists.iter().enumerate() {
+            out[i] = l.size;
+        }
+        out
+    }
+    pub fn mi_bin_from_size(size: usize) -> usize {
+        super::mi_bin_from_size(size)
+    }
+    pub const MAX_BIN: usize = super::MAX_BIN;
+    pub const MAX_BIN_SIZE: usize = super::MAX_BIN_SIZE;
+    pub const MI_LARGE_OBJ_SIZE_MAX: usize = super::MI_LARGE_OBJ_SIZE_MAX;
+}
+
 #[cfg(test)]
 mod tests {
     use super::*;
